@@ -3,7 +3,7 @@ import json, re
 from vlib import core, gen, behave, spec
 
 LEVEL = "proof"
-TEXT = "The chunker's acceptance criterion (even number of %), losslessness and chunk shape are theorems for all strings (induction over the character list); the factory order and token regexes are pinned to facts regenerated from the shipped wiring; model and implementation are run on every string up to a length bound plus random Unicode and must agree on chunks, tokens, emitted code and %+q quoting."
+TEXT = "The chunker's acceptance criterion (even number of %), losslessness and chunk shape are theorems for all strings (induction over the character list); the factory order and token regexes are pinned to facts regenerated from the shipped wiring; model and implementation are run on every string up to a length bound plus random Unicode and must agree on chunks, tokens, emitted code and %+q quoting. literal_roundtrip (reading the emitted Go literal back yields the original string, for every string) and literal_ascii (%+q output is pure ASCII) are theorems over the quoting model, whose inverse direction is tied to strconv.Unquote; escape_roundtrip covers every string whose % are doubled."
 TECHNIQUE = 'Lean 4 induction proofs over the chunker model + exhaustive bounded/random model-vs-implementation correspondence'
 LEAN_PROPS = ["C03"]
 TRUSTED = ["runtime helpers of body.go.tpl (_concatenateChunks, _getEnv, …) and exporter.CastToString are modelled (Model/Token.evalTokens)"]
@@ -195,7 +195,8 @@ def level_b(ctx):
     pats = pattern_strings(ctx, n)
     params = {"i": -5, "u": 2**63 + 1, "f": 1.25, "bt": True, "nl": None, "s": "str", "empty": "", "uni": "é𝄞\n",
               # look-alikes: equal printed form, different YAML type — each keeps its own type
-              "ten_i": 10, "ten_s": "10", "t_b": True, "t_s": "true", "n_s": "<nil>", "f_s": "1.25", "ten_i2": 10}
+              "ten_i": 10, "ten_s": "10", "t_b": True, "t_s": "true", "n_s": "<nil>", "f_s": "1.25", "ten_i2": 10,
+              "three_i": 3, "three_f": 3.0, "k_f": 1e3, "k_i": 1000, "z_f": 0.0, "z_i": 0}
     names = []
     for k, p in enumerate(pats):
         params["x%d" % k] = p
@@ -203,11 +204,34 @@ def level_b(ctx):
     cfg = {"meta": {"pkg": "gen", "imports": {"fx": gen.FX}, "functions": {"fu": "fx.FnU", "fd": "fx.FnD"}}, "parameters": params,
            "services": {"holder": {"constructor": "fx.NewA", "arguments": ["%x0%"]}}}
     ops = [["param", nm] for nm in list(params)]
+    # the registered function is the LAST registration of its name: a user function may replace a built-in, a later file
+    # may replace an earlier file's registration
+    fmeta = {"pkg": "gen", "imports": {"fx": gen.FX}}
+    cfg2 = {"meta": dict(fmeta, functions={"env": "fx.Fn1", "shout": "fx.FnInt"}),
+            "parameters": {"e": '%env("VERIF_A")%', "s": "%shout(1, 2)%", "m": 'x%env("NOPE")%y%shout()%', "i": '%envInt("VERIF_N")%'},
+            "services": {"holder": {"constructor": "fx.NewA", "arguments": ["%e%"]}},
+            "__files__": [{"meta": dict(fmeta, functions={"shout": "fx.Fn1"}), "parameters": {"e": '%env("VERIF_A")%', "s": "%shout(1, 2)%"}},
+                          {"meta": {"functions": {"shout": "fx.FnInt", "env": "fx.Fn1"}}, "parameters": {"m": 'x%env("NOPE")%y%shout()%', "i": '%envInt("VERIF_N")%'},
+                           "services": {"holder": {"constructor": "fx.NewA", "arguments": ["%e%"]}}}]}
+    ops2 = [["param", nm] for nm in cfg2["parameters"]]
+    out2, err2 = behave.run_batch(ctx, [(cfg2, ops2)], tag="c03f", split=False)
     out, err = behave.run_batch(ctx, [(cfg, ops)], tag="c03")
     violations, corr_fail = [], []
     dist = {"containers": 0, "getparam_checked": 0, "getparam_errors": 0, "escaped_roundtrips": 0}
     if err:
         return {"violations": [{"sig": "probe-build", "what": err}], "corr_fail": [], "dist": dist}
+    fviol, fcorr = [], []
+    if err2 or not out2 or not out2[0]["accepted"] or out2[0]["impl"] is None:
+        fviol.append({"sig": "function-registration", "what": "configuration re-registering functions does not build/run: %s" % (err2 or (out2 and out2[0]["cli_out"][-300:]),), "files": out2[0]["files"] if out2 else []})
+    else:
+        r2 = out2[0]
+        if r2["model"] is not None:
+            for x in behave.compare_script(r2["impl"], r2["model"])[:2]:
+                fcorr.append({"op": "rt:param", "param": ops2[x[0]][1] if isinstance(x[0], int) else x[0], "impl": x[1], "model": x[2], "files": r2["files"]})
+        for (op, nm), r in zip(ops2, r2["impl"]):
+            want = spec.eval_param(cfg2, nm)
+            if want[0] == "ok" and ("ok" not in r or not spec.prim_matches(want[1], r["ok"])):
+                fviol.append({"sig": "function-registration", "what": "GetParam(%s) for %r returns %r; the function registered LAST under that name gives %r" % (nm, cfg2["parameters"][nm], r, want[1]), "files": r2["files"]})
     rec = out[0]
     if not rec["accepted"]:
         return {"violations": [{"sig": "valid-patterns-rejected", "what": rec["cli_out"][-600:], "files": rec["files"]}], "corr_fail": [], "dist": dist}
@@ -234,7 +258,7 @@ def level_b(ctx):
                 violations.append({"sig": "getparam-value", "what": "GetParam(%s) for %r returns %r, documented value %r" % (nm, raw, r["ok"], want[1]), "pattern": raw})
             if isinstance(raw, str) and raw.replace("%%", "").count("%") == 0 and "%%" in raw:
                 dist["escaped_roundtrips"] += 1
-    return {"violations": violations, "corr_fail": corr_fail, "dist": dist}
+    return {"violations": violations + fviol, "corr_fail": corr_fail + fcorr, "dist": dist}
 
 
 def replay(ctx, payload):
